@@ -11,7 +11,7 @@
 From stdpp Require Import base list option numbers.
 From RecordUpdate Require Import RecordUpdate.
 From Incr.Model Require Import Base Live Engine Api.
-From Incr.Proofs Require Import Pres FrameDeps Expert.
+From Incr.Proofs Require Import Pres FrameDeps Expert Edges.
 
 (* adding a dependency appends one fresh edge on the requested child and keeps "the i-th edge's
    index cell says i, no edge twice" — whether or not the node is necessary, whatever linking the
@@ -103,9 +103,19 @@ Example C14_nonvacuous :
      (Ok (OutRead (inl (VInt 24))), [])].
 Proof. vm_compute. reflexivity. Qed.
 
+(* swapping two children of an expert node (what remove_dependency does before popping the last one) exchanges
+   the child indices of the two links on both ends — also when both edges lead to the same child *)
+Theorem C14_swap_children_exchanges_the_links :
+  forall n c1 c2 ci1 ci2 i1 i2 s s',
+    link s c1 i1 n ci1 -> link s c2 i2 n ci2 -> ci1 <> ci2 ->
+    expert_swap_children_except_in_kind n c1 ci1 c2 ci2 s = (Ok tt, s') ->
+    link s' c1 i1 n ci2 /\ link s' c2 i2 n ci1.
+Proof. exact swap_children_links. Qed.
+
 Print Assumptions C14_add_dependency_keeps_children_consistent.
 Print Assumptions C14_remove_dependency_keeps_children_consistent.
 Print Assumptions C14_only_add_and_remove_rewire.
 Print Assumptions C14_callback_on_link_delivers_current_value.
 Print Assumptions C14_callbacks_wait_for_the_first_recompute.
 Print Assumptions C14_callback_skips_child_without_value.
+Print Assumptions C14_swap_children_exchanges_the_links.
